@@ -203,6 +203,9 @@ class GC(FileStorageFormatter):
             del self.oid2curpos
         else:
             self.reachable = self.oid2curpos
+            # Records after the pack time may point back to revisions that
+            # were not current at the pack time (undo): keep those, too.
+            self.findReachableFromFuture()
 
     def buildPackIndex(self):
         pos = 4
@@ -322,6 +325,10 @@ class GC(FileStorageFormatter):
                           "match initial transaction length: %d != %d",
                           tlen, th.tlen)
             pos += 8
+
+        if not self.gc:
+            # Nothing is collected, so there are no references to trace.
+            return
 
         for pos in extra_roots:
             refs = self.findrefs(pos)
